@@ -52,6 +52,24 @@ Reverse      == Gen /\ Do("Reverse", [k \in 1..Len(items) |-> items[Len(items) +
 Next == depth < MaxDepth /\ (UngroupPorts \/ GroupA \/ Ungroup \/ DeleteShadow \/ Reverse)
 Spec == Init /\ [][Next]_vars
 
+(* --- C15: after resequencing, sorting any permutation of the top-level items restores the numbered order ----- *)
+R == INSTANCE Reseq WITH B <- 65536, MaxSeq <- <<65535, 65535>>
+ToTree(its) == [k \in 1..Len(its) |->
+                  [blk |-> IsBlock(its[k]), seq |-> its[k].seq, sig |-> its[k].id,
+                   items |-> [j \in 1..Len(its[k].items) |-> [blk |-> FALSE, seq |-> its[k].items[j].seq, sig |-> its[k].items[j].id, items |-> <<>>]]]]
+Renumber(its, s, d) ==
+  LET t == R!NumTree(ToTree(its), s, d).out
+  IN  [k \in 1..Len(its) |-> IF IsBlock(its[k])
+                              THEN [its[k] EXCEPT !.seq = t[k].seq, !.items = [j \in 1..Len(its[k].items) |-> [its[k].items[j] EXCEPT !.seq = t[k].items[j].seq]]]
+                              ELSE [its[k] EXCEPT !.seq = t[k].seq]]
+SortBySeq(its) == SortSeq(its, LAMBDA a, b : R!LtL(a.seq, b.seq))
+NoEmptyBlocks(its) == \A k \in 1..Len(its) : IsBlock(its[k]) => its[k].items # <<>>
+P_C15_Sort == (Len(items) <= 4 /\ NoEmptyBlocks(items)) =>
+  LET r == Renumber(items, <<0, 10>>, <<0, 10>>) IN
+  /\ \A pi \in Permutations(1..Len(r)) : SortBySeq([k \in 1..Len(r) |-> r[pi[k]]]) = r
+  /\ Flatten(r) = [k \in 1..Len(Flatten(items)) |-> [Flatten(items)[k] EXCEPT !.seq = <<0, 10 * k>>]]
+  /\ Tcam(r) = Tcam(items)
+
 AllSplitsSafe(x) == \A k \in 1..Len(Flatten(x)) : IsAce(Flatten(x)[k]) => SplitKeepsMeaning(Flatten(x)[k].f)
 Ids(ls) == [k \in 1..Len(ls) |-> ls[k].id]
 
